@@ -104,6 +104,10 @@ struct BuildLog {
   FILE* log_file_ = nullptr;
   std::string log_file_path_;
   bool needs_recompaction_ = false;
+
+#ifdef NINJA_VERIF
+  friend struct VerifAccess;
+#endif
 };
 
 #endif // NINJA_BUILD_LOG_H_
